@@ -461,6 +461,19 @@ impl Execute for ast::Pipeline {
     }
 }
 
+/// Returns whether the command at the given position of a pipeline runs in the current
+/// shell (as opposed to a subshell of its own).
+fn runs_in_current_shell(
+    shell: &Shell<impl extensions::ShellExtensions>,
+    index: usize,
+    pipeline_len: usize,
+) -> bool {
+    pipeline_len == 1
+        || (index == pipeline_len - 1
+            && shell.options().run_last_pipeline_cmd_in_current_shell
+            && !shell.options().enable_job_control)
+}
+
 async fn spawn_pipeline_processes(
     pipeline: &ast::Pipeline,
     shell: &mut Shell<impl extensions::ShellExtensions>,
@@ -497,10 +510,8 @@ async fn spawn_pipeline_processes(
         // Otherwise, we spawn a separate subshell for each command in the pipeline.
         //
 
-        let run_in_current_shell = pipeline_len == 1
-            || (current_pipeline_index == pipeline_len - 1
-                && shell.options().run_last_pipeline_cmd_in_current_shell
-                && !shell.options().enable_job_control);
+        let run_in_current_shell =
+            runs_in_current_shell(shell, current_pipeline_index, pipeline_len);
 
         // Set up parameters appropriate for this command.
         let mut cmd_params = params.clone();
@@ -533,9 +544,19 @@ async fn spawn_pipeline_processes(
             }
         };
 
-        let spawn_result = command
+        let spawn_result = match command
             .execute_in_pipeline(pipeline_context, cmd_params)
-            .await?;
+            .await
+        {
+            Ok(spawn_result) => spawn_result,
+            // An error (even a fatal one) raised by a command run in its own subshell ends
+            // only that command.
+            Err(err) if !run_in_current_shell => {
+                let _ = shell.display_error(&mut params.stderr(shell), &err);
+                ExecutionResult::from(err.into_result(shell).exit_code).into()
+            }
+            Err(err) => return Err(err),
+        };
 
         // Update the process group ID if something was spawned.
         if let ExecutionSpawnResult::StartedProcess(child) = &spawn_result {
@@ -563,7 +584,13 @@ async fn wait_for_pipeline_processes_and_update_status(
     // Clear our the pipeline status so we can start filling it out.
     shell.last_pipeline_statuses_mut().clear();
 
+    let pipeline_len = process_spawn_results.len();
+    let mut index = 0;
+
     while let Some(child) = process_spawn_results.pop_front() {
+        let ran_in_current_shell = runs_in_current_shell(shell, index, pipeline_len);
+        index += 1;
+
         let wait_result = if !stopped_children.is_empty() {
             child.poll().await?
         } else {
@@ -572,7 +599,13 @@ async fn wait_for_pipeline_processes_and_update_status(
 
         match wait_result {
             ExecutionWaitResult::Completed(current_result) => {
-                result = current_result;
+                // A command run in its own subshell cannot make this shell exit, return or
+                // leave a loop; only its status flows back.
+                result = if ran_in_current_shell {
+                    current_result
+                } else {
+                    ExecutionResult::from(current_result.exit_code)
+                };
                 shell.set_last_exit_status(result.exit_code.into());
                 shell
                     .last_pipeline_statuses_mut()
